@@ -187,3 +187,14 @@ PROPS["C20"] = {
     "trusted_base": TB_CIRCUIT + ["the event-stream record is fetched through Start/ServeHTTP with a 1 ms tick while the substitute clock is frozen (so that the number of ticks does not matter)", "encoding/json of the record"],
     "assumptions": ["sequential histories with a monotone clock (one unambiguous window)"],
 }
+
+PROPS["C18"] = {
+    "components": [CircuitSeq("C18", None, 150, 4000, suite="gowrap")],
+    "rule": "gowrap (K4): Circuit.Go scenarios = outcome (nil / error / panic incl. error-valued and typed-nil panic values) x context end (never / before the call / while the function is parked / after it finished / simultaneously) x cancel vs execution timeout x GoLostErrors on/off x run function vs fallback x nil vs real circuit x function finishing or never returning; real goroutines under the real Go scheduler, order forced by channels; "
+            "observed: Go's result or re-panicked value (identity), GoLostErrors reports, promptness (2 s bound while the function is parked), helper goroutines (stack dump) after the function returned; each observation must be a final state the Lean model allows; non-trivial = the context ends before/while/racing the function; distinct by FNV hash",
+    "trusted_base": TB_COMMON + ["modelled not verified: Go channel/select/goroutine semantics (capacity-1 buffers as Option, select = any ready branch)", "outcome-level tie under the real scheduler: the harness forces orders with channels and real timers of a few ms"],
+    "assumptions": ["partial: the model's interleavings are not driven step by step on the real code (no scheduler control over goroutines the library spawns)"],
+}
+
+PROPS["C10"]["components"].append(CircuitSeq("C10", None, 150, 4000, suite="gowrap"))
+PROPS["C10"]["rule"] += " gowrap: the Circuit.Go scenarios of C18, judged for panics (value identity at Go's caller while the context has not ended)."
